@@ -285,17 +285,41 @@ Theorem hilbert_table_index_error_iff : forall (n : Z) (numfreq : nat), (0 <= n)
   (hilbert_table n numfreq = None <-> numfreq = 0%nat \/ (Z.even n = true /\ (Z.of_nat numfreq <= n / 2)%Z)).
 Proof. exact hilbert_table_none_iff. Qed.
 
-(* every failure of rfft_to_hilbert, any numeric instance, any inverse transform *)
+(* every failure of rfft_to_hilbert, any numeric instance, any inverse transform.
+   CHANGED with the repair of the model's 0-d branch: the first conjunct was
+     shape = nil -> r = inl HIndexError
+   which the library contradicts for n < 1 (xf.ndim == 0: h = 1.0, then scipy.fftpack.ifft checks n
+   before the axis: rfft_to_hilbert(np.array(1+0j), 0) and (..., -1) raise ValueError "invalid number
+   of data points" for every axis; IndexError "tuple index out of range" only for n >= 1).  It is now
+   the two conjuncts on shape = nil; the conjuncts on n-dimensional inputs are as before. *)
 Theorem rfft_to_hilbert_error_branches : forall (T : Type) (N : Num T) (ifft1 : (nat -> cx) -> nat -> Z -> cx)
     (shape : list nat) (xf : list nat -> cx) (n axis : Z),
   let r := rfft_to_hilbert N ifft1 shape xf n axis in
-  (shape = nil -> r = inl HIndexError) /\
+  (shape = nil -> (n < 1)%Z -> r = inl HValueError) /\
+  (shape = nil -> (1 <= n)%Z -> r = inl HIndexError) /\
   (shape <> nil -> (axis < - Z.of_nat (length shape) \/ Z.of_nat (length shape) <= axis)%Z -> r = inl HIndexError) /\
   (forall ax, shape <> nil -> py_index (Z.of_nat (length shape)) axis = Some ax ->
      hilbert_table n (nth ax shape O) = None -> r = inl HIndexError) /\
   (forall ax h, shape <> nil -> py_index (Z.of_nat (length shape)) axis = Some ax ->
      hilbert_table n (nth ax shape O) = Some h -> (n < 1)%Z -> r = inl HValueError).
 Proof. exact @rfft_to_hilbert_errors. Qed.
+
+(* the priority of the two error kinds as an equivalence (added with the repair): ValueError exactly
+   when n < 1 and no IndexError came first — the input is 0-d (nothing is indexed before scipy's check
+   of n), or the axis exists and the table could be written *)
+Theorem rfft_to_hilbert_value_error_exactly : forall (T : Type) (N : Num T) (ifft1 : (nat -> cx) -> nat -> Z -> cx)
+    (shape : list nat) (xf : list nat -> cx) (n axis : Z),
+  rfft_to_hilbert N ifft1 shape xf n axis = inl HValueError <->
+  (n < 1)%Z /\ (shape = nil \/
+                exists ax h, py_index (Z.of_nat (length shape)) axis = Some ax /\
+                             hilbert_table n (nth ax shape O) = Some h).
+Proof. exact @rfft_to_hilbert_value_error_iff. Qed.
+
+(* a 0-d input never succeeds, and its outcome does not depend on the axis (added with the repair) *)
+Theorem rfft_to_hilbert_zero_dimensional : forall (T : Type) (N : Num T) (ifft1 : (nat -> cx) -> nat -> Z -> cx)
+    (xf : list nat -> cx) (n axis : Z),
+  rfft_to_hilbert N ifft1 nil xf n axis = inl (if (n <? 1)%Z then HValueError else HIndexError).
+Proof. exact @rfft_to_hilbert_0d. Qed.
 
 (* success on an n-dimensional array: same number of dimensions, the frequency axis is replaced
    IN PLACE by n samples, every other axis keeps its length; each entry is the 1-D inverse
